@@ -204,6 +204,10 @@ class C10(Prop):
         mag = math.fsum(abs(t) for t in terms)
         # plus the absolute spacing of the subnormal range (products p_i ln(.) of subnormal p_i are rounded there)
         tol = 16 * (n + 4) * float(fp.u) * mag + 4 * (n + 4) * (2.0 ** -149 if et == "f32" else 2.0 ** -1074) + 1e-300
+        if case.routine == "kl_divergence":
+            # the ratio q_i / p_i is rounded before the logarithm is taken: an absolute error of u p_i per term whatever
+            # the size of ln(q_i / p_i) (the term 2 u sum p of the proved bound C10_kl_error_f64)
+            tol += 4 * float(fp.u) * math.fsum(abs(a) for a in p if a == a and a != 0)
         if not finite(g) or abs(g - exact) > tol:
             return ["value: %s = %r, definition %r (tolerance %.2e)" % (case.routine, g, exact, tol)]
         return []
@@ -226,7 +230,8 @@ class C10(Prop):
                 out.append((g["KLself"], "identity: KL(p, p) = %r, must be zero" % v["KLself"]))
             if all(k in v for k in ("Hp", "KL", "Hpq")) and all(finite(v[k]) for k in ("Hp", "KL", "Hpq")):
                 mag = abs(v["Hp"]) + abs(v["KL"]) + abs(v["Hpq"]) + sum(abs(x) for x in p) * 20
-                if abs(v["Hpq"] - (v["Hp"] + v["KL"])) > 64 * (n + 4) * float(fp.u) * mag:
+                floor = 16 * (n + 4) * (2.0 ** -149 if et == "f32" else 2.0 ** -1074)     # subnormal spacing: products of subnormal p_i
+                if abs(v["Hpq"] - (v["Hp"] + v["KL"])) > 64 * (n + 4) * float(fp.u) * mag + floor:
                     out.append((g["Hpq"], "identity: H(p,q) = %r but H(p) + KL(p,q) = %r" % (v["Hpq"], v["Hp"] + v["KL"])))
             if any_c.norm and clean:
                 q = g["KL"].vals[1] if "KL" in g else None
